@@ -12,11 +12,14 @@ Record step04 := mkS4 {
   t_cnow : N;                    (* the handler's clock reading *)
   t_now : N;                     (* the backend's clock *)
   t_lose : list bytes;           (* backend keys removed before the call (eviction / loss) *)
+  t_put : list (bytes * entry);  (* backend entries written directly before the call (requests of other writers) *)
   t_res : hres;                  (* what the handler returned *)
   t_dump : list (bytes * entry); (* backend contents after the call *)
   t_log : list bytes }.          (* backend keys of the requests the call sent *)
 
-Record case04 := mkC4 { c4_bkeys : list bytes; c4_ckeys : list bytes; c4_steps : list step04 }.
+Record case04 := mkC4 { c4_bkeys : list bytes; c4_ckeys : list bytes;
+                        c4_written : list (bytes * bytes * N);  (* (key, data, flags) of complete writes whose requests are injected with t_put *)
+                        c4_steps : list step04 }.
 
 Definition gres_eqb (a b : gres) : bool :=
   bytes_eqb (g_key a) (g_key b) && bytes_eqb (g_data a) (g_data b) && (g_flags a =? g_flags b) &&
@@ -92,6 +95,7 @@ Definition chunk_deadlines_ok (st : store) (now : N) (k : bytes) (dl : deadline)
   end.
 
 Definition lose (s : store) (ks : list bytes) : store := fold_left (fun s k => upd s k None) ks s.
+Definition put_all (s : store) (ps : list (bytes * entry)) : store := fold_left (fun s p => upd s (fst p) (Some (snd p))) ps s.
 
 (* mode 4: C04 (+C16 sizes are checked by Check16); mode 5: C05 — with losses the oracle is
    "a read returns a value written in full by one set, or a miss": [written] collects
@@ -103,7 +107,7 @@ Fixpoint run04 (mode : N) (bkeys ckeys : list bytes) (steps : list step04) (s a 
   | st :: rest =>
       let now := t_now st in
       let q := t_req st in
-      let s0 := lose s (t_lose st) in
+      let s0 := put_all (lose s (t_lose st)) (t_put st) in
       let '(s', res) := chunked_exec (t_tok st) (t_cnow st) s0 now q in
       let d := of_dump (t_dump st) in
       let '(a', o) := match cmd_of_hreq q with Some c => spec_step a now c | None => (a, OOk) end in
@@ -137,7 +141,7 @@ Fixpoint run04 (mode : N) (bkeys ckeys : list bytes) (steps : list step04) (s a 
   end.
 
 Definition check04 (mode : N) (c : case04) : N :=
-  run04 mode (c4_bkeys c) (c4_ckeys c) (c4_steps c) empty_store empty_store [].
+  run04 mode (c4_bkeys c) (c4_ckeys c) (c4_steps c) empty_store empty_store (c4_written c).
 
 (* debugging aid *)
 Record dbg04 := mkD4 { d4_step : N; d4_res_model : hres; d4_res_obs : hres; d4_corr_res : bool; d4_corr_store : bool;
@@ -149,7 +153,7 @@ Fixpoint debug04 (bkeys ckeys : list bytes) (steps : list step04) (s a : store) 
   | st :: rest =>
       let now := t_now st in
       let q := t_req st in
-      let s0 := lose s (t_lose st) in
+      let s0 := put_all (lose s (t_lose st)) (t_put st) in
       let '(s', res) := chunked_exec (t_tok st) (t_cnow st) s0 now q in
       let d := of_dump (t_dump st) in
       let '(a', o) := match cmd_of_hreq q with Some c => spec_step a now c | None => (a, OOk) end in
